@@ -293,6 +293,11 @@ func (tp *TemplateProgram) Desired(req Object) []Object {
 	if tp.Related {
 		rel := getMap(req, "related", ResConfigMap.KindKey())
 		for _, key := range sortedKeys(rel) {
+			// only the scenario's own related objects ("r<N>"), never objects that are
+			// themselves children (a child per child would feed back and grow without bound)
+			if n := getStr(rel[key], "metadata", "name"); len(n) < 2 || n[0] != 'r' || len(getList(rel[key], "metadata", "ownerReferences")) > 0 {
+				continue
+			}
 			nm := "rel-" + strings.ReplaceAll(key, "/", "-")
 			c := tp.desiredChild(parent, k0, mstr(parent, "name")+"-"+nm, tp.childNS(parent, k0, 0), 200)
 			setPath(c, getPath(rel[key], "data"), childContentField(k0), "from")
